@@ -17,7 +17,7 @@ func init() {
 		Rule: "one case = (codec, garbage prefix of 0-2 strings, frame A shape, loss subset of A's packets, frame B shape); the delivered packets of A then all packets of B go into one depacketizer and B's outputs are compared with a fresh depacketizer that sees B only; non-trivial = at least one packet of A was lost and at least one delivered",
 		Assumptions: []string{
 			"H264 frames A: 12 shapes of up to 10 packets mixing single NAL units, STAP-A and FU-A trains (reference encoder); frames B: the damaged frame A itself sent again byte for byte / single / STAP-A / FU-A train / FU-A train + single / FU-A trains whose start, middle or end fragment carries no payload octets, and a single FU-A packet with both S and E set (also among the A shapes); Annex-B and AVC output",
-			"AV1 frames A: 8 OBU sequences packetized by AV1Payloader at small MTUs into up to 10 packets with Z/Y chains; frames B start with Z=0, with and without N=1, among them the damaged frame sent again and two hand-built frames whose first packet opens with an empty OBU element",
+			"AV1 frames A: 8 OBU sequences packetized by AV1Payloader at small MTUs into up to 10 packets with Z/Y chains, plus a fragmented tile list and a fragmented temporal delimiter from another packetizer; frames B start with Z=0, with and without N=1, among them the damaged frame sent again and two hand-built frames whose first packet opens with an empty OBU element",
 			"large abandoned fragments: a fragmented unit / OBU of 70 KB, 1 MiB + 1 KB and 3 MB whose end (or start, or one middle fragment) is lost, at MTU 1200, followed by each frame-B shape; for H264 also abandoned units that leave 2^16..2^22 minus {0,1,600,1197,1199} bytes buffered, followed by a frame B with full-size fragments",
 			"ALL loss subsets of A (2^n, n <= 10) delivered in order; thorough: a second damaged frame (H264 shapes 3, s2, E; the first three packets of three AV1 shapes) behind the first, the loss subsets running over both (n <= 13), and garbage prefixes also for frames of up to 8 packets; garbage: every sequence of up to 2 strings before frame A and 0-1 string between the delivered part of A and frame B, from an 8 (H264) / 12 (AV1) string corpus (nil, empty, orphan fragments, truncated aggregation, start of a never-finished fragment)",
 		},
@@ -177,6 +177,7 @@ var c15AV1Garbage = [][]byte{nil, {}, {0x00}, {0x80, 0x01, 0x02}, {0x40, 0x30, 0
 type c15AV1Shape struct {
 	mtu  int
 	obus []ref.OBU
+	raw  [][]byte // packets from another packetizer (the library's own never sends these OBU types)
 }
 
 func c15AV1Shapes() []c15AV1Shape {
@@ -185,14 +186,18 @@ func c15AV1Shapes() []c15AV1Shape {
 		return ref.OBU{Type: t, HasExt: true, TID: tid, SID: sid, Payload: fill(n, seed)}
 	}
 	return []c15AV1Shape{
-		{6, []ref.OBU{o(6, 12, 1)}},
-		{6, []ref.OBU{o(1, 2, 2), o(6, 14, 3)}},
-		{5, []ref.OBU{o(6, 9, 4), o(6, 9, 5)}},
-		{8, []ref.OBU{oe(6, 0, 0, 10, 6), oe(6, 1, 0, 10, 7)}},
-		{4, []ref.OBU{o(3, 1, 8), o(4, 20, 9)}},
-		{7, []ref.OBU{o(2, 0, 0), o(1, 3, 10), o(6, 30, 11)}},
-		{16, []ref.OBU{o(6, 40, 12), o(6, 3, 13), o(6, 50, 14)}},
-		{3, []ref.OBU{o(6, 14, 15)}},
+		{6, []ref.OBU{o(6, 12, 1)}, nil},
+		{6, []ref.OBU{o(1, 2, 2), o(6, 14, 3)}, nil},
+		{5, []ref.OBU{o(6, 9, 4), o(6, 9, 5)}, nil},
+		{8, []ref.OBU{oe(6, 0, 0, 10, 6), oe(6, 1, 0, 10, 7)}, nil},
+		{4, []ref.OBU{o(3, 1, 8), o(4, 20, 9)}, nil},
+		{7, []ref.OBU{o(2, 0, 0), o(1, 3, 10), o(6, 30, 11)}, nil},
+		{16, []ref.OBU{o(6, 40, 12), o(6, 3, 13), o(6, 50, 14)}, nil},
+		{3, []ref.OBU{o(6, 14, 15)}, nil},
+		// a tile list and a temporal delimiter with a body, each sent in fragments: receivers must
+		// ignore these OBUs, also when their end is lost
+		{raw: [][]byte{{0x50, 0x40, 0x01, 0x02, 0x03, 0x04}, {0xD0, 0x05, 0x06}, {0x90, 0x07, 0x08}}},
+		{raw: [][]byte{{0x50, 0x10, 0x01, 0x02}, {0x90, 0x03}}},
 	}
 }
 
@@ -201,15 +206,18 @@ func c15AV1(c *mc.Ctx) {
 	ai := c.Pick(len(shapes))
 	bi := c.Pick(7)
 	sa := shapes[ai]
-	frameA := cloneAll((&codecs.AV1Payloader{}).Payload(uint16(sa.mtu), ref.AV1Stream(sa.obus, false)))
+	frameA := cloneAll(sa.raw)
+	if sa.raw == nil {
+		frameA = cloneAll((&codecs.AV1Payloader{}).Payload(uint16(sa.mtu), ref.AV1Stream(sa.obus, false)))
+	}
 	if len(frameA) > 10 {
 		frameA = frameA[:10]
 	}
 	bShapes := []c15AV1Shape{
-		{6, []ref.OBU{{Type: 6, Payload: fill(12, 0x51)}}},                                     // Z=0, fragmented
-		{200, []ref.OBU{{Type: 1, Payload: fill(3, 0x52)}, {Type: 6, Payload: fill(9, 0x53)}}}, // N=1
-		{200, []ref.OBU{{Type: 6, Payload: fill(5, 0x54)}, {Type: 6, Payload: fill(5, 0x55)}}},
-		{5, []ref.OBU{{Type: 1, Payload: fill(2, 0x56)}, {Type: 6, Payload: fill(11, 0x57)}}}, // N=1 and fragments
+		{6, []ref.OBU{{Type: 6, Payload: fill(12, 0x51)}}, nil},                                     // Z=0, fragmented
+		{200, []ref.OBU{{Type: 1, Payload: fill(3, 0x52)}, {Type: 6, Payload: fill(9, 0x53)}}, nil}, // N=1
+		{200, []ref.OBU{{Type: 6, Payload: fill(5, 0x54)}, {Type: 6, Payload: fill(5, 0x55)}}, nil},
+		{5, []ref.OBU{{Type: 1, Payload: fill(2, 0x56)}, {Type: 6, Payload: fill(11, 0x57)}}, nil}, // N=1 and fragments
 	}
 	if bi == 4 {
 		bShapes = append(bShapes, sa) // the intact frame is the damaged one sent again
@@ -225,6 +233,9 @@ func c15AV1(c *mc.Ctx) {
 		bi = 0
 	}
 	sb := bShapes[bi]
+	if frameB == nil && sb.raw != nil {
+		frameB = cloneAll(sb.raw)
+	}
 	if frameB == nil {
 		frameB = cloneAll((&codecs.AV1Payloader{}).Payload(uint16(sb.mtu), ref.AV1Stream(sb.obus, false)))
 	}
@@ -274,7 +285,7 @@ func c15Large(c *mc.Ctx) {
 	if av1 {
 		frameA = cloneAll((&codecs.AV1Payloader{}).Payload(1200, ref.AV1Stream([]ref.OBU{{Type: 6, Payload: fill(size, 1)}}, false)))
 		bi := c.Pick(2)
-		sb := []c15AV1Shape{{6, []ref.OBU{{Type: 6, Payload: fill(12, 0x51)}}}, {200, []ref.OBU{{Type: 1, Payload: fill(3, 0x52)}, {Type: 6, Payload: fill(9, 0x53)}}}}[bi]
+		sb := []c15AV1Shape{{6, []ref.OBU{{Type: 6, Payload: fill(12, 0x51)}}, nil}, {200, []ref.OBU{{Type: 1, Payload: fill(3, 0x52)}, {Type: 6, Payload: fill(9, 0x53)}}, nil}}[bi]
 		frameB = cloneAll((&codecs.AV1Payloader{}).Payload(uint16(sb.mtu), ref.AV1Stream(sb.obus, false)))
 		mk = func() rtp.Depacketizer { return &codecs.AV1Depacketizer{} }
 	} else {
